@@ -86,6 +86,13 @@ func setupNS() (int, error) {
 			return 2, err
 		}
 	}
+	// every SACK run is a real TCP connection between the two namespaces; at the rate of the thorough tiers and of the
+	// native fuzz stage (thousands of runs a minute) their TIME_WAIT entries used up the ephemeral ports and the tool's
+	// own `listen tcp :0` failed with "address already in use" (seen once, thorough C09 at seed 2). No TIME_WAIT
+	// buckets in the private pair.
+	for _, ns := range []string{mainNS, peerNS} {
+		exec.Command("ip", "netns", "exec", ns, "sysctl", "-qw", "net.ipv4.tcp_max_tw_buckets=0").Run()
+	}
 	defer cleanup()
 	args := append([]string{"netns", "exec", mainNS, os.Args[0]}, os.Args[1:]...)
 	if sh := os.Getenv("VERIF_NS_EXEC"); sh != "" {
